@@ -13,13 +13,13 @@ HB(s) == HexToBytes(s)
 ToAffRaw(h) == ToAff(<<H(HexSlice(h, 0, 32)), H(HexSlice(h, 32, 64)), H(HexSlice(h, 64, 96))>>)
 
 Classes == {"pk_x_ge_n", "pk_ok", "pk_not_on_curve", "pk_ge_p", "pk_bad_len", "vfy_accept", "vfy_reject", "r_ge_p", "s_ge_n", "s_zero", "R_odd_y",
-            "R_inf", "x_mismatch", "msg_len_0", "msg_len_odd", "msg_len_long", "sig_bad_len", "vector",
+            "R_inf", "x_mismatch", "msg_len_0", "msg_len_odd", "msg_len_long", "msg_len_blocks", "sig_bad_len", "vector",
             "sign_P_even_R_even", "sign_P_even_R_odd", "sign_P_odd_R_even", "sign_P_odd_R_odd", "aux_zero", "aux_ones",
             "sign_public_api", "sign_reader_fail", "from_point_odd", "from_point_even", "from_point_inf", "from_point_altrep", "from_ecdsa",
             "self_verify", "immutable", "msg_nil_accept", "msg_nil_sign"}
 
 MsgClasses(m) == (IF Len(m) = 0 THEN {"msg_len_0"} ELSE {}) \cup (IF Len(m) % 32 # 0 THEN {"msg_len_odd"} ELSE {})
-                 \cup (IF Len(m) > 64 THEN {"msg_len_long"} ELSE {})
+                 \cup (IF Len(m) > 64 THEN {"msg_len_long"} ELSE {}) \cup (IF Len(m) > 128 /\ Len(m) < 400 THEN {"msg_len_blocks"} ELSE {})
 
 VerifyClasses(pk, msg, sig, out) ==
   (IF out THEN {"vfy_accept"} ELSE {"vfy_reject"}) \cup MsgClasses(msg)
